@@ -67,6 +67,16 @@ func DecodeLZMA(in []byte) (*LZMAResult, error) {
 // 2 = size known and marker. dictField is written to the header as is; the
 // window used for legality is max(dictField, 4096).
 func EncodeLZMA(p Props, dictField uint32, ops []Op, sizeMode int) (stream, plain []byte, err error) {
+	return EncodeLZMAMarker(p, dictField, ops, sizeMode, 2)
+}
+
+// EncodeLZMAMarker is EncodeLZMA with a chosen length for the end marker: the
+// marker is the match with distance 0xFFFFFFFF, whatever its length (2..273);
+// encoders write 2, decoders must not care.
+func EncodeLZMAMarker(p Props, dictField uint32, ops []Op, sizeMode int, markerLen int) (stream, plain []byte, err error) {
+	if markerLen < 2 || markerLen > 273 {
+		markerLen = 2
+	}
 	ds := dictField
 	if ds < 4096 {
 		ds = 4096
@@ -79,7 +89,7 @@ func EncodeLZMA(p Props, dictField uint32, ops []Op, sizeMode int) (stream, plai
 		}
 	}
 	if sizeMode != 1 {
-		if err := e.encodeOp(Op{Kind: OpMatch, Dist: EOSDist, Len: 2}); err != nil {
+		if err := e.encodeOp(Op{Kind: OpMatch, Dist: EOSDist, Len: markerLen}); err != nil {
 			return nil, nil, err
 		}
 	}
